@@ -13,7 +13,7 @@ import (
 )
 
 func init() {
-	register("C02", "Static rules on pkg/processor SSA: (ownobs/once) must-hold facts `entry.ourVAA != nil` and `!entry.submitted` at every publish sink, `submitted = true` stored on every path after the first sink and nowhere else; (threshold-exact) the guard is exactly len(assembled) >= CalculateQuorum(len(set)); (no-skip) after a signature is recorded every path evaluates the ourVAA test and, when it holds, the quorum comparison; signatures are recorded by map assignment keyed by address (order/duplication independent); (loopback) broadcastSignature always loops the node's own observation back onto the channel Run feeds to handleObservation; (body-copy) the published VAA copies every vaa.VAA field except Signatures from ourVAA, exhaustively over the struct's fields from go/types, and handleMessage builds ourVAA field-for-field from the chain message; (governance) every path to Sign/broadcastSignature in handleMessage passes `EmitterAddress != governanceEmitter OR EmitterChain != governanceChain`; who-may-call table for the guardian signer.", c02)
+	register("C02", "Static rules on pkg/processor SSA: (ownobs/once) must-hold facts `entry.ourVAA != nil` and `!entry.submitted` at every publish sink, `submitted = true` stored on every path after the first sink and nowhere else; (threshold-exact) the guard is exactly len(assembled) >= CalculateQuorum(len(set)); (no-skip) after a signature is recorded every path evaluates the ourVAA test and, when it holds, the quorum comparison; signatures are recorded by map assignment keyed by address (order/duplication independent); (loopback) broadcastSignature always loops the node's own observation back onto the channel Run feeds to handleObservation; (body-copy) the published VAA copies every vaa.VAA field except Signatures from ourVAA, exhaustively over the struct's fields from go/types, and handleMessage builds ourVAA field-for-field from the chain message; (governance) every path to Sign/broadcastSignature in handleMessage passes `EmitterAddress != governanceEmitter OR EmitterChain != governanceChain`; who-may-call table for the guardian signer. (gs-pin) vaaState.gs of an existing entry is stored only where its ourVAA is stored.", c02)
 }
 
 func c02(c *Ctx) {
